@@ -210,7 +210,7 @@ Definition ev_ok (e : event) (l : list event) : Prop :=
   match e with
   | EvNec n => lastNU l n <> Some true
   | EvUnnec n => lastNU l n = Some true
-  | EvInvoked n _ _ | EvCutoff n _ _ _ | EvBindFn n _ _ => lastNU l n = Some true
+  | EvInvoked n _ _ | EvCutoff n _ _ _ | EvBindFn n _ _ => lastNU l n = Some true /\ EvInval n ∉ l
   | EvInval n => EvInval n ∉ l
   | _ => True
   end.
